@@ -108,6 +108,7 @@ class VirtualPool:
     def __init__(self, nworkers, schedule=(), completion='fifo', pending=0):
         self.pending = pending
         self.W = nworkers
+        self.ncpus = self.nodes = nworkers      # the pathos pool exposes its size under both names
         self.sched = list(schedule)
         self.k = 0
         self.completion = completion
